@@ -5,7 +5,7 @@
    and returned the pools out" ([iter] = iteration order of the ByName map, irrelevant by C18).
    All statements are about the resource list in ANY order (config.For itself does not sort). *)
 From Coq Require Import List NArith Permutation.
-From Verif Require Import Model.Cfg Proofs.NetP Proofs.CfgSummP Proofs.CfgP Proofs.CfgPrefix.
+From Verif Require Import Model.Cfg Proofs.NetP Proofs.CfgSummP Proofs.CfgFuelP Proofs.CfgP Proofs.CfgRouteP Proofs.CfgL2P Proofs.CfgPrefix.
 Local Open Scope N_scope.
 
 (* ipaddr.Summarize: the prefixes returned for the inclusive range [s,e] cover exactly the
@@ -16,8 +16,9 @@ Theorem C08_summarize_exact : forall f s e ps, e < 2 ^ width f -> summarize f s 
   Forall (fun p => aligned p /\ wf_prefix p /\ pfam p = f /\ s <= pbase p /\ plast p <= e) ps.
 Proof. exact summarize_exact. Qed.
 
-(* the summarisation loop never runs out of the model's fuel (2*width+2 blocks) *)
-(* C08_summarize_fuel_ok: see the end of this file *)
+(* the summarisation loop emits at most 2*width+1 blocks: the model's fuel always suffices *)
+Theorem C08_summarize_fuel_ok : forall f s e, s <= e -> e < 2 ^ width f -> summarize f s e <> None.
+Proof. exact summarize_fuel_ok. Qed.
 
 (* one address entry: a CIDR means its network (also when not aligned, also in IPv4-mapped
    notation), a range means [start,end] of one family *)
@@ -73,6 +74,16 @@ Theorem C08_adv_attach_exact : forall iter r out p b, pools_for iter r = Some ou
                                  wants (r_pools r) (bg_pools c) (bg_psels c) (p_name p)).
 Proof. exact adv_attach_exact. Qed.
 
+(* an L2 advertisement likewise, as a set: containsAdvertisement keeps one representative of
+   advertisements equal up to [l2adv_eqb] (same nodes, same interface set, same AllInterfaces) *)
+Theorem C08_l2_attach_exact : forall iter r out p, pools_for iter r = Some out -> In p (po_pools out) ->
+  (forall a', In a' (p_l2 p) -> exists c, In c (r_l2 r) /\ parse_l2 (r_nodes r) c = Some a' /\
+                                          wants (r_pools r) (l2_pools c) (l2_psels c) (p_name p)) /\
+  (forall c a, In c (r_l2 r) -> parse_l2 (r_nodes r) c = Some a ->
+               wants (r_pools r) (l2_pools c) (l2_psels c) (p_name p) ->
+               exists a', In a' (p_l2 p) /\ l2adv_eqb a a' = true).
+Proof. exact l2_attach_exact. Qed.
+
 (* ... with exactly the nodes its node selectors match (all nodes when it has none) *)
 Theorem C08_nodes_exact : forall nodes c b, parse_bgp nodes c = Some b ->
   forall n, In n (ba_nodes b) <-> exists nd, In nd nodes /\ nd_name nd = n /\
@@ -110,6 +121,13 @@ Theorem C08_localpref_collision_rejected : forall iter r out p, pools_for iter r
   In p (po_pools out) ->
   ForallOrdPairs (fun a b => ba_lp a <> ba_lp b -> ~ collide a b p) (p_bgp p).
 Proof. exact localpref_no_collision. Qed.
+
+(* ... conversely, in an accepted configuration one route (aggregate prefix, node, peer) never
+   gets two local preferences from two advertisements attached to the same pool *)
+Theorem C08_one_route_one_localpref : forall iter r out p, pools_for iter r = Some out -> In p (po_pools out) ->
+  ForallOrdPairs (fun a b => forall x n pr, announces p a x n pr -> announces p b x n pr ->
+                                            route a x = route b x -> ba_lp a = ba_lp b) (p_bgp p).
+Proof. exact one_route_one_localpref. Qed.
 
 (* non-vacuity: a range crossing alignment boundaries, the F4 pair after the fix *)
 Example C08_nonvacuous :
